@@ -5,6 +5,21 @@ V = os.path.dirname(os.path.dirname(os.path.abspath(__file__)))
 
 # id -> (category, technique, text, note, design_ref)
 CHECKS = {
+ "C01": ("exploration", "runtime monitor: real TagWriter -> real strict TagIterator round trip over random specifications/trees/options, structural comparison with the generated tree",
+         "Random specifications (zoo + generated: ids of 1-8 bytes, depth <=6, global elements) x random conformant trees x boundary-lattice payloads x per-element options (default / width 1-8 / unknown / Full / deprecated call) x masters padded to content sizes 126-128 and 16382-16384 x empty last elements are written by the real writer and read back by the real strict iterator; the item sequence must equal the flattened tree (floats by bits) with no error. Held = all executed round trips agreed.",
+         "tree generator conformance is defined by the harness reference path matcher; cases the writer rejects are vacuous (counted); payloads <= 20 KB, trees <= 160 elements", "DESIGN.md §5 C01"),
+ "C02": ("exploration", "runtime monitor: read -> re-write -> read differential on writer output, hostile reference encodings and mutants",
+         "Byte streams from the real writer, from an independent reference encoder making hostile-but-valid choices (size widths 1-8, unknown-size masters of every all-ones width, zero-padded / zero-length integers, 4-byte floats) and random mutants of both are read by the real strict iterator; every cleanly read stream is written back through the real writer (all calls must succeed) and read again; pass-2 values must equal pass-1 values, and for unmutated reference encodings pass 1 must equal the encoded tree.",
+         "streams rejected by pass 1 or not starting at a root element are vacuous (counted); size limit 16 MiB during pass 1", "DESIGN.md §5 C02"),
+ "C09": ("exploration", "runtime monitor: paired executions of the real writer on the same tree (Full vs Start/End, deprecated vs option API, short-write schedules) + reference header decode of the output",
+         "The same random tree is written in several presentations and the destination byte streams (and per-call destination lengths) are compared byte for byte; the output is walked with the reference header decoder to check that every explicit width is used exactly, unknown-size masters carry all-ones sizes, and ids/payload bytes equal those of the all-default encoding; four partial-write schedules of the destination (1 byte, random limits, Interrupted injections) must deliver identical bytes.",
+         "Full is only used where every descendant has default options; writer-rejected trees are vacuous", "DESIGN.md §5 C09"),
+ "C10": ("exploration", "runtime monitor: recording destination inspected after every writer call against a shadow stack kept from the call history; reference decoder judges completeness",
+         "Random call histories with known- and unknown-size masters interleaved (cut at random points, optional flush) run on the real writer with a recording sink; after every call the monitor checks: content only grows; while a known-size master is open the destination length is unchanged; whenever an element/Full/End call returns Ok with no known-size master open the destination is walked exactly by the reference decoder guided by the partial tree of everything accepted so far; after flush()/into_inner() the destination decodes to the whole tree with all masters closed.",
+         "sink is append-only by construction (io::Write), so retraction is structurally impossible; unknown-size masters are never presented as Full", "DESIGN.md §5 C10"),
+ "C19": ("fault_enumeration", "runtime monitor: fault injection of rejected calls at every position of valid call histories, differential against the history without them",
+         "For each generated valid call history every insertion position (all of them in thorough; all for histories <=14 calls in quick) receives failing calls of one of nine kinds (misplaced leaf/master, size not representable in requested width for leaf and Full, unknown size on a leaf via both APIs, malformed raw id, wrong End, Full with an invalid child at depth 1-3, several in a row); per-call results of the original calls, the result of into_inner() and the final destination bytes must equal those of the history without the failing calls.",
+         "I/O errors are not injected (outside the property); candidates the writer accepts are vacuous", "DESIGN.md §5 C19"),
  "C15": ("exploration", "runtime monitor: differential oracle against an independent reference vint codec, catch_unwind + overflow trapping, exhaustive small widths",
          "Every public vint function in ebml_iterable::tools is called on real inputs and compared with an independent reference codec: exhaustive for unsigned widths <=2 (quick) / <=4 (thorough, 2^28 values) and signed widths <=2 / <=3, +-2 lattice around every 2^(7k), 2^(7k-1), 2^(8k), random 64-bit values, all byte slices of length <=2 and every first byte x truncation for lengths 3..9. Held = no disagreement and no panic/overflow trap on everything executed.",
          "trusts refcodec.rs (written from RFC 8794, no shared code); the signed value -2^(7L-1) is a don't-care; values >= 2^56 only checked for no-panic and rejection", "DESIGN.md §5 C15"),
